@@ -56,8 +56,9 @@ trait CommonThreadInfo {
 
         let status_path = path::PathBuf::from(format!("/proc/{}/status", tid));
         let status_file = std::fs::File::open(status_path)?;
-        for line in io::BufReader::new(status_file).lines() {
-            let l = line?;
+        // Not `lines()`: the `Name:` line holds the thread name, which need not be UTF-8.
+        for line in io::BufReader::new(status_file).split(b'\n') {
+            let l = String::from_utf8_lossy(&line?).into_owned();
             let start = l
                 .get(0..6)
                 .ok_or_else(|| ThreadInfoError::InvalidProcStatusFile(tid, l.clone()))?;
